@@ -184,9 +184,10 @@ def run_styles(case):
         for a, vs in vals.items():
             if rnd.random() < 0.75:
                 kw[a] = vs[(case["seed"] * 7 + i * 3 + rnd.randrange(len(vs))) % len(vs)]
-        if case.get("image") and i == 0:
+        if case.get("image") and i <= 1:
+            # every styled document with an image has a second, different one when it has a second style
             kw.pop("bg_color", None)
-            kw["bg_image"] = BackgroundImage(PNG, f"img{case['seed']}.png")
+            kw["bg_image"] = BackgroundImage(PNG + bytes([i]) * i, f"img{case['seed']}-{i}.png")
         if rnd.random() < 0.5:
             kw["name"] = f"Style {case['seed']}-{i}"
         st = doc.add_style(**kw)
